@@ -6,7 +6,7 @@ CFG = dict(
     rule="a case is ONE step script executed on a real store (temp dir) and, step by step, on coq/Hist/Machine.v: "
          "random store configuration (synced/unsynced x embedded values x external commit allowance, header version "
          "0/1, MaxActiveTransactions 2..1000, MaxTxEntries 2..64, small MaxKeyLen/MaxValueLen, FileSize 256/600/4096 "
-         "forcing chunk rotation of tx/commit/value logs, prealloc, MaxIOConcurrency 1..3, tx-log/value caches) and "
+         "forcing chunk rotation of tx/commit/value logs also under external allowance, prealloc, MaxIOConcurrency 1..3, tx-log/value caches) and "
          "10..35 steps: commits of 2..4 logical clients through NewTx/Set/AsyncCommit (blocked calls kept pending), "
          "cancelled / empty / oversized / metadata-unsupported / failing-precondition commits, ReplicateTx of exported "
          "transactions fabricated by the harness (valid, and with one defect: PrevAlh, BlRoot, id too low/high/+2, Eh, "
@@ -28,30 +28,36 @@ CFG = dict(
         "from any number of clients, not over finer-grained schedules",
         "tx log abstraction: a list of writes at explicit offsets (newest first); a read at an offset returns the record "
         "whose header starts there unless a later write overlaps it; bytes that are not the start of an intact written "
-        "record (embedded-values prefixes, torn records) never parse as a transaction whose Alh verifies and continues "
-        "the chain",
-        "appendable layer (property C17): only the explicit flushes (sync(), Close) are modelled for the tx log and the "
-        "commit log; flushes caused by write-buffer overflow or chunk rotation and the physical leftovers of the AHT's own "
-        "logs after ResetSize are not (scripts that would depend on them are not generated: small FileSize only without "
-        "external commit allowance; under external allowance no reopen after a Discard followed by a new precommit, except in the "
-        "directed scripts; "
-        "a replicated tx with BlTxID = 0 is not sent while cLogBuf is full)",
+        "record (torn records, the middle of a record) never parse as a transaction whose Alh verifies and continues the "
+        "chain; OpenWith's backlog scan finds the write that STARTS at the scan position (b814f8c: the embedded-values prefix "
+        "is skipped; a prefix of 64 KiB or more wraps its 2-byte length and ends the scan)",
+        "appendable layer (property C17), as fixed by 09014a8: a rewind (SetOffset) of the tx log drops everything at or "
+        "beyond the offset (file truncated, chunk files behind removed) and the commit log is the logical entry list "
+        "(rewound to committedTxID by every commit loop); for PREALLOCATED files, which are never truncated, only what is "
+        "still in the write buffer is dropped and only the explicit flushes (sync(), Close) are modelled, not those caused by "
+        "buffer overflow or chunk rotation (so preallocation is generated without external commit allowance only, where no "
+        "rewind over buffered bytes occurs); the physical leftovers of the AHT's own logs after ResetSize are not modelled "
+        "(under external allowance no reopen after a Discard followed by a new precommit, except in the directed scripts); a "
+        "replicated tx with BlTxID = 0 is not sent while cLogBuf is full",
         "the AHT is the list of appended Alh values with RootAt(n) = mth of the first n (its hashing/addressing is property "
         "C08); executable SHA-256 of coq/Merkle/Sha256.v (Uint63 under vm_compute) only to run the model; theorems are "
         "about an abstract hash H, no collision assumption is needed by any C02 theorem",
         "inputs of the model steps taken as given: precondition outcome (index not modelled), the clock; value offsets are compared only for "
         "MaxIOConcurrency = 1; PrevAlh/Eh/BlRoot/value digests are compared through the Alh that commits to them; "
-        "NOT modelled: indexing, value-log truncation (C14), crash recovery (C03), ExportTx/TxReader readers (ReadTx, "
-        "ReadValue, CommittedAlh are), preallocated-file binary search of the commit log (exercised, not modelled)",
+        "NOT modelled: indexing, value-log truncation (C14), crash recovery (C03), ExportTx/TxReader readers (ReadTx incl. its "
+        "id check, ReadValue, CommittedAlh are), preallocated-file binary search of the commit log (exercised, not modelled), "
+        "the value checks of OpenWith's backlog reload (embeddedValuesMatch / precommittedValuesReadable: they hold for what "
+        "performPrecommit wrote and a clean Close flushed)",
     ],
     assumptions=[
         "transaction ids stay below 2^64 and log sizes below 2^63 (no integer wrap-around in offsets)",
-        "commit-log entries appended by a commit loop that stops midway stay in the write buffer until the next rewind "
-        "(true for the defaults: 4 MB buffer vs 1000 x 44 B, 512 MB chunks). NOT true with a small FileSize: chunk rotation "
-        "flushes them, SetOffset never truncates the file (property C17), and a later reopen counts them as committed: "
-        "the falsifier-only scenario staleClogTail (harness/c02/c02.go; also corpus/C02/stale-clog-tail-small-filesize.json) runs a "
-        "real-store execution (synced, external allowance, FileSize 256) after which tx 5's PrevAlh is not the Alh of tx 4: "
-        "reported on every run as a KNOWN-FINDING (harness level: the model does not contain the appendable layer)",
+        "preallocated commit log (PreallocFiles): entries appended by a commit loop that stops midway and flushed by chunk "
+        "rotation stay in the never-truncated file after the next rewind and are counted by OpenWith's search for the last "
+        "non-zero entry; the model's logical commit log does not contain this: the falsifier-only scenario "
+        "staleClogTail(prealloc=true) (harness/c02/c02.go) runs the real-store execution (synced, external allowance, FileSize "
+        "256, preallocation) after which the committed id goes 4 -> 5 and tx 5's PrevAlh is not the Alh of tx 4: reported on "
+        "every run as a KNOWN-FINDING (harness level). The same history without preallocation was fixed by 09014a8 and "
+        "stays in the check as a regression scenario",
     ],
 )
 
